@@ -130,7 +130,7 @@ REQUIRED_GUARDS = {
     'synapgrad.functional.concat': [({'isinstance(dim, int)': ('I', True)}, lambda a: not a['I'], 'dim must be an int')],
     'synapgrad.functional.stack': [({'isinstance(dim, int)': ('I', True)}, lambda a: not a['I'], 'dim must be an int')],
     'synapgrad.functional.pow': [({'isinstance(n, (int, float))': ('I', True)}, lambda a: not a['I'], 'exponent must be int or float')],
-    'synapgrad.cpu_ops.unfold_dim_forward': [({'size > dim_size': ('G', True), 'dim_size < size': ('G', True)}, lambda a: a['G'], 'window larger than the dimension')],
+    'synapgrad.cpu_ops.unfold_dim_forward': [({'size > a.shape[dimension]': ('G', True)}, lambda a: a['G'], 'window larger than the dimension')],
 }
 
 
